@@ -22,10 +22,16 @@ pub struct Knobs {
     /// ReadOptions::fill_cache: 0 = always, 1 = never, 2 = alternating per read
     #[serde(default)]
     pub fill_cache_mode: u8,
+    /// Iterator read-sampling period in bytes (hook H7); 0 = RainDB's 1 MiB. Small values make an
+    /// iterator charge a seek to a file every few entries, so that sampled seek compactions occur.
+    #[serde(default)]
+    pub read_bytes_period: usize,
 }
 
 impl Knobs {
     pub fn gen(rng: &mut Rng) -> Knobs {
+        // (a stream of its own: added later, must not shift the draws below)
+        let read_bytes_period = *rng.fork("read-bytes-period").pick(&[0usize, 0, 0, 64, 1024, 16384]);
         let mem = *rng.pick(&[512usize, 700, 1024, 1500, 2048, 4096, 8192, 16384, 65536]);
         let mem = if rng.chance(1, 40) { 4 << 20 } else { mem };
         Knobs {
@@ -40,6 +46,7 @@ impl Knobs {
             min_allowed_seeks: *rng.pick(&[2usize, 5, 20, 100]),
             sync_mode: *rng.pick(&[0u8, 0, 1, 2, 2]),
             fill_cache_mode: *rng.pick(&[0u8, 0, 1, 2]),
+            read_bytes_period,
         }
     }
 }
@@ -79,6 +86,14 @@ impl Val {
             out.push(b'a' + (x % 26) as u8);
         }
         out
+    }
+}
+
+impl Val {
+    /// The shortest non-empty value that still carries the tag.
+    pub fn with_min_len(mut self) -> Val {
+        self.len = format!("v{}#", self.tag).len() as u32;
+        self
     }
 }
 
@@ -154,6 +169,8 @@ pub fn gen_align(rng: &mut Rng) -> Op {
     // any point | any release of the database mutex
     let mask = *rng.pick(&[1u16 << 8, 1 << 8, 1 << 8, 1 << 7, 0b110, 0b110, 1 << 3, 1 << 4, 0x1ff, (1 << 8) | 0b110]);
     let nth = *rng.pick(&[1u32, 1, 2, 2, 3, 4, 5, 7, 10, 16]);
+    // half of the directives keep the parked task parked after the client blocked (sched::ALIGN_HOLD)
+    let mask = if rng.chance(1, 2) { mask | (1 << 15) } else { mask };
     Op::Align { mask, nth }
 }
 
